@@ -9,15 +9,15 @@ From Coq Require Import Lia ZArith Sorted.
 (* induction principles for the mutual descriptions                        *)
 (* ====================================================================== *)
 
-Scheme Expands_mind := Induction for Expands Sort Prop
-  with ExpandsKeys_mind := Induction for ExpandsKeys Sort Prop
-  with ExpandsMembers_mind := Induction for ExpandsMembers Sort Prop.
+Scheme Expands_mind := Minimality for Expands Sort Prop
+  with ExpandsKeys_mind := Minimality for ExpandsKeys Sort Prop
+  with ExpandsMembers_mind := Minimality for ExpandsMembers Sort Prop.
 Combined Scheme Expands_mutind from Expands_mind, ExpandsKeys_mind, ExpandsMembers_mind.
 
-Scheme EntryStmts_mind := Induction for EntryStmts Sort Prop
-  with KeysStmts_mind := Induction for KeysStmts Sort Prop
-  with FileStmts_mind := Induction for FileStmts Sort Prop
-  with KidsStmts_mind := Induction for KidsStmts Sort Prop.
+Scheme EntryStmts_mind := Minimality for EntryStmts Sort Prop
+  with KeysStmts_mind := Minimality for KeysStmts Sort Prop
+  with FileStmts_mind := Minimality for FileStmts Sort Prop
+  with KidsStmts_mind := Minimality for KidsStmts Sort Prop.
 Combined Scheme EntryStmts_mutind from EntryStmts_mind, KeysStmts_mind, FileStmts_mind, KidsStmts_mind.
 
 (* ====================================================================== *)
@@ -38,6 +38,16 @@ Section Sound.
   Local Notation Exp := (Expands cfg seg sections).
   Local Notation ExpK := (ExpandsKeys cfg seg sections).
   Local Notation ExpM := (ExpandsMembers cfg seg sections).
+
+  (* [entry_members] reads the table the entry consults in the model *)
+  Lemma entry_members_for f k :
+    entry_members cfg seg f k =
+    if reference_partial cfg then [] else
+    match lookup k (subgroups_for seg f) with Some others => others | None => [] end.
+  Proof.
+    unfold entry_members, members, subgroups_for.
+    destruct (fi_kind f); destruct (reference_partial cfg); reflexivity.
+  Qed.
 
   Lemma KS_app f base l1 s1 l2 s2 : KS f l1 base s1 -> KS f l2 base s2 -> KS f (l1 ++ l2) base (s1 ++ s2).
   Proof.
@@ -108,7 +118,7 @@ Section Sound.
                  fold_out (fun k ws =>
                     do o1 <- emit_file_of rt sty cfg seg sections f k base ws;
                     do o2 <- (if reference_partial cfg then Ok ([], snd o1) else
-                              match lookup k (sections_subgroups seg) with
+                              match lookup k (subgroups_for seg f) with
                               | Some others =>
                                   fold_out (fun other ws => emit_sff rt sty cfg seg sections f n (section :: stack) other base ws)
                                            others (snd o1)
@@ -132,10 +142,10 @@ Section Sound.
               destruct (IHn _ _ _ _ _ _ F1) as [ko [Xo Ko]].
               destruct (IHo _ _ _ F2) as [kr [Xr Kr]].
               exists (ko ++ kr). split; [constructor; assumption | apply KS_app; assumption]. }
-          assert (Hm : exists keysm, ExpM f (members cfg seg k) keysm /\ KS f keysm base b).
-          { unfold members. destruct (reference_partial cfg).
+          assert (Hm : exists keysm, ExpM f (entry_members cfg seg f k) keysm /\ KS f keysm base b).
+          { rewrite entry_members_for. destruct (reference_partial cfg).
             - apply ok_inj in Eb. inversion Eb; subst. exists []. split; constructor.
-            - destruct (lookup k (sections_subgroups seg)) as [others|].
+            - destruct (lookup k (subgroups_for seg f)) as [others|].
               + eapply Hothers. exact Eb.
               + apply ok_inj in Eb. inversion Eb; subst. exists []. split; constructor. }
           destruct Hm as [keysm [Xm Km]].
@@ -213,7 +223,7 @@ Section Sound.
      sub-group members *)
   Lemma expands_shape f section l :
     Exp f section l ->
-    exists ls, Forall2 (fun k lk => exists lm, ExpM f (members cfg seg k) lm /\ lk = k :: lm)
+    exists ls, Forall2 (fun k lk => exists lm, ExpM f (entry_members cfg seg f k) lm /\ lk = k :: lm)
                        (here sections f section) ls /\ l = List.concat ls.
   Proof.
     intro H. inversion H as [s l0 HK]; subst. clear H.
@@ -434,4 +444,44 @@ Lemma rom_align_monotone env senv ext final st a v :
 Proof.
   intro Hv. cbn [exec_top_stmt]. change (String.eqb "__romPos" ".") with false. cbv iota. rewrite Hv.
   split; [apply lookup_set_sym_same | apply align_up_le].
+Qed.
+
+(* pads and linker offsets sit only in their own section *)
+Lemma own_pad_iff rt sty seg f k base s :
+  fi_kind f = KPad ->
+  (In s (own_stmts rt sty seg f k base) <-> fi_section f = k /\ s = SDotAdd (fi_pad_amount f)).
+Proof.
+  intro Hk. unfold own_stmts. rewrite Hk. destruct (String.eqb (fi_section f) k) eqn:E.
+  - apply String.eqb_eq in E. simpl. split; [intros [H|[]]; auto | intros [_ H]; auto].
+  - apply String.eqb_neq in E. simpl. split; [contradiction | intros [H _]; contradiction].
+Qed.
+
+Lemma own_offset_iff rt sty seg f k base s :
+  fi_kind f = KLinkerOffset ->
+  (In s (own_stmts rt sty seg f k base) <->
+   fi_section f = k /\ s = SAssign false false true (linker_offset sty (fi_linker_offset_name f)) EDot).
+Proof.
+  intro Hk. unfold own_stmts. rewrite Hk. destruct (String.eqb (fi_section f) k) eqn:E.
+  - apply String.eqb_eq in E. simpl. split; [intros [H|[]]; auto | intros [_ H]; auto].
+  - apply String.eqb_neq in E. simpl. split; [contradiction | intros [H _]; contradiction].
+Qed.
+
+Lemma own_input rt sty seg f k base :
+  (fi_kind f = KObject \/ fi_kind f = KArchive) -> path_ok rt f ->
+  exists p, escape_path rt (fi_path f) = Ok p /\
+            own_stmts rt sty seg f k base =
+            [SInput (keeps (fi_keep f) k) (display (push base p)) (member_of f) k (wildcard_sections seg)].
+Proof.
+  intros Hk Hp. unfold path_ok, own_stmts, member_of in *.
+  destruct Hk as [Hk|Hk]; rewrite Hk in *; destruct Hp as [p Ep]; exists p; rewrite Ep; auto.
+Qed.
+
+(* the children of a group / the files of a segment: one contribution per entry, in list order *)
+Lemma kids_entries rt sty cfg seg sections files k base l :
+  KidsStmts rt sty cfg seg sections files k base l ->
+  exists ls, Forall2 (fun c lc => EntryStmts rt sty cfg seg sections c k base lc) files ls /\ l = List.concat ls.
+Proof.
+  induction 1 as [|c r k base l1 l2 H1 H2 IH].
+  - exists []. split; constructor.
+  - destruct IH as [ls [F E]]. subst. exists (l1 :: ls). split; [constructor; assumption | reflexivity].
 Qed.
